@@ -389,6 +389,8 @@ pub struct Plan {
     pub companion: u8,
     /// 0 = separate derive attributes, 1 = one derive list
     pub derive_style: u8,
+    /// `*Assign` cases: also derive the non-assigning operator and compare `a op= b` with `a op b` directly
+    pub cross: bool,
 }
 
 struct Rendered {
@@ -500,6 +502,18 @@ fn render_plan(p: &Plan) -> GenCase {
             run.push_str(&format!(
                 "    let mut a: Ty = {a};\n    let b: Ty = {b};\n    a {sym} b;\n    let e: Ty = {e};\n    o.eq(\"{what}: a {sym} b leaves a equal to the field-wise result\", &show(&e), &show(&a));\n"
             ));
+            if p.cross {
+                let base = opd.derive.trim_end_matches("Assign");
+                derives.push(format!("derive_more::{base}"));
+                if forward {
+                    attrs.push_str(&format!("#[{}(forward)]\n", opd.attr.trim_end_matches("_assign")));
+                }
+                let bsym = sym.trim_end_matches('=');
+                run.push_str(&format!(
+                    "    let mut a1: Ty = {a};\n    let via_op: Ty = a1.clone() {bsym} {b};\n    a1 {sym} {b};\n    o.eq(\"{what}: a {sym} b leaves a equal to what the derived a {bsym} b returns\", &show(&via_op), &show(&a1));\n"
+                ));
+                labels.push("assign_vs_derived_op".into());
+            }
         } else if opd.fam == Fam::MulLike || opd.fam == Fam::MulAssignLike {
             let (sc, st) = if p.noncopy { (format!("NK({})", p.scalar), format!("snk({})", p.scalar)) } else { (format!("K({})", p.scalar), format!("sk({})", p.scalar)) };
             let e = sh.value(v, &|k| t_op(name, &leaf("L", k), &st));
@@ -513,6 +527,15 @@ fn render_plan(p: &Plan) -> GenCase {
                     "    let mut a: Ty = {a};\n    a {sym} {sc};\n    let e: Ty = {e};\n    o.eq(\"{what}: a {sym} k leaves every field a.i {} k\", &show(&e), &show(&a));\n",
                     sym.trim_end_matches('=')
                 ));
+            }
+            if p.cross && opd.fam == Fam::MulAssignLike {
+                let base = opd.derive.trim_end_matches("Assign");
+                derives.push(format!("derive_more::{base}"));
+                let bsym = sym.trim_end_matches('=');
+                run.push_str(&format!(
+                    "    let mut a1: Ty = {a};\n    let via_op: Ty = a1.clone() {bsym} {sc};\n    a1 {sym} {sc};\n    o.eq(\"{what}: a {sym} k leaves a equal to what the derived a {bsym} k returns\", &show(&via_op), &show(&a1));\n"
+                ));
+                labels.push("assign_vs_derived_op".into());
             }
             if !p.noncopy {
                 // the impl is generic over the scalar: a second scalar value of the same type must arrive unchanged too
@@ -730,7 +753,8 @@ fn build(d: &mut Dice) -> GenCase {
     let sum_len = 1 + d.pick(3);
     let companion = d.weighted(&[4, 3, 3]) as u8;
     let derive_style = d.pick(2) as u8;
-    render_plan(&Plan { op, mode, shape, scalar, noncopy, sum_len, companion, derive_style })
+    let cross = matches!(opd.fam, Fam::AddAssignLike | Fam::MulAssignLike) && d.chance(50);
+    render_plan(&Plan { op, mode, shape, scalar, noncopy, sum_len, companion, derive_style, cross })
 }
 
 fn fld(name: Option<&str>, slot: usize) -> Fld {
@@ -773,7 +797,11 @@ fn fixed() -> Vec<GenCase> {
     };
     let enum_single = Shape { is_enum: true, vars: vec![Var { name: "A", kind: VK::Tuple, fields: vec![fld(None, 0), fld(None, 1)] }], param: [false; 4], bound_style: 0 };
     let mut out = vec![];
-    let plan = |op: usize, mode: Mode, shape: &Shape, noncopy: bool, companion: u8| Plan { op, mode, shape: shape.clone(), scalar: 7, noncopy, sum_len: 2, companion, derive_style: 0 };
+    let plan = |op: usize, mode: Mode, shape: &Shape, noncopy: bool, companion: u8| Plan { op, mode, shape: shape.clone(), scalar: 7, noncopy, sum_len: 2, companion, derive_style: 0, cross: false };
+    let crossed = |mut p: Plan| {
+        p.cross = true;
+        p
+    };
     for (op, opd) in OPS.iter().enumerate() {
         let structs = [&tuple2, &tuple2_same, &named3g];
         let enums = [&enum_units, &enum_generic, &enum_single];
@@ -787,6 +815,7 @@ fn fixed() -> Vec<GenCase> {
                 for s in structs {
                     out.push(render_plan(&plan(op, Mode::Plain, s, false, 0)));
                 }
+                out.push(render_plan(&crossed(plan(op, Mode::Plain, &named3g, false, 0))));
                 out.push(render_negative(op, false, &enum_units));
             }
             Fam::MulLike => {
@@ -804,6 +833,8 @@ fn fixed() -> Vec<GenCase> {
                     out.push(render_plan(&plan(op, Mode::Forward, s, false, 0)));
                 }
                 out.push(render_plan(&plan(op, Mode::Scalar, &single, true, 0)));
+                out.push(render_plan(&crossed(plan(op, Mode::Scalar, &tuple2, false, 0))));
+                out.push(render_plan(&crossed(plan(op, Mode::Forward, &named3g, false, 0))));
                 out.push(render_negative(op, false, &enum_units));
                 out.push(render_negative(op, true, &enum_units));
             }
@@ -858,6 +889,7 @@ pub fn prop() -> DiceProp {
             ("mul_forward_enum", 0.01),
             ("negative_unsupported_enum", 0.02),
             ("companion=manual_own_name", 0.01),
+            ("assign_vs_derived_op", 0.08),
         ]
         .iter()
         .map(|(l, f)| (l.to_string(), *f)),
@@ -869,8 +901,8 @@ pub fn prop() -> DiceProp {
         nightly: false,
         check_only: false,
         ndice: 128,
-        quick: (1500, 1),
-        thorough: (4500, 4),
+        quick: (2000, 1),
+        thorough: (6000, 5),
         build,
         fixed,
         classify,
